@@ -7,6 +7,7 @@ import MjwVerif.Lemmas.C35
 import MjwVerif.Gen.Render_util
 import MjwVerif.Gen.Bvh
 
+set_option linter.unusedSimpArgs false
 namespace Mjw.Lemmas.C35
 open Mjw Mjw.RayCast Mjw.Lemmas.C34 Mjw.Gen.Render_util
 
@@ -177,5 +178,184 @@ theorem cube_hi (p a0 a1 a2 s0 s1 s2 m : ℝ)
     (by linarith) (by linarith) (by linarith) (by linarith) (by linarith) (by linarith) (by linarith) (by linarith)
     (by linarith) (by linarith)
   linarith
+
+/-! ### nested min / max of corner values -/
+
+/-- `(lower, upper)` of `bvh._compute_*_bounds` as a `Box` -/
+def boxOf (p : V3 ℝ × V3 ℝ) : Box ℝ := ⟨p.1, p.2⟩
+
+theorem nested_min_cube (m0 p a0 a1 a2 s0 s1 s2 c1 c2 c3 c4 c5 c6 c7 c8 t : ℝ)
+    (l0 : -1 ≤ s0) (u0 : s0 ≤ 1) (l1 : -1 ≤ s1) (u1 : s1 ≤ 1) (l2 : -1 ≤ s2) (u2 : s2 ≤ 1)
+    (e1 : c1 = p - a0 - a1 - a2) (e2 : c2 = p - a0 - a1 + a2) (e3 : c3 = p - a0 + a1 - a2)
+    (e4 : c4 = p - a0 + a1 + a2) (e5 : c5 = p + a0 - a1 - a2) (e6 : c6 = p + a0 - a1 + a2)
+    (e7 : c7 = p + a0 + a1 - a2) (e8 : c8 = p + a0 + a1 + a2) (et : t = p + a0 * s0 + a1 * s1 + a2 * s2) :
+    min (min (min (min (min (min (min (min m0 c1) c2) c3) c4) c5) c6) c7) c8 ≤ t := by
+  have hm : ∀ c, (c = c1 ∨ c = c2 ∨ c = c3 ∨ c = c4 ∨ c = c5 ∨ c = c6 ∨ c = c7 ∨ c = c8) →
+      min (min (min (min (min (min (min (min m0 c1) c2) c3) c4) c5) c6) c7) c8 ≤ c := by
+    intro c hc
+    rcases hc with rfl | rfl | rfl | rfl | rfl | rfl | rfl | rfl <;> simp only [min_le_iff, le_refl, true_or, or_true]
+  rw [et]
+  exact cube_lo p a0 a1 a2 s0 s1 s2 _ l0 u0 l1 u1 l2 u2
+    (e1 ▸ hm c1 (by simp)) (e2 ▸ hm c2 (by simp)) (e3 ▸ hm c3 (by simp)) (e4 ▸ hm c4 (by simp))
+    (e5 ▸ hm c5 (by simp)) (e6 ▸ hm c6 (by simp)) (e7 ▸ hm c7 (by simp)) (e8 ▸ hm c8 (by simp))
+
+theorem nested_max_cube (m0 p a0 a1 a2 s0 s1 s2 c1 c2 c3 c4 c5 c6 c7 c8 t : ℝ)
+    (l0 : -1 ≤ s0) (u0 : s0 ≤ 1) (l1 : -1 ≤ s1) (u1 : s1 ≤ 1) (l2 : -1 ≤ s2) (u2 : s2 ≤ 1)
+    (e1 : c1 = p - a0 - a1 - a2) (e2 : c2 = p - a0 - a1 + a2) (e3 : c3 = p - a0 + a1 - a2)
+    (e4 : c4 = p - a0 + a1 + a2) (e5 : c5 = p + a0 - a1 - a2) (e6 : c6 = p + a0 - a1 + a2)
+    (e7 : c7 = p + a0 + a1 - a2) (e8 : c8 = p + a0 + a1 + a2) (et : t = p + a0 * s0 + a1 * s1 + a2 * s2) :
+    t ≤ max (max (max (max (max (max (max (max m0 c1) c2) c3) c4) c5) c6) c7) c8 := by
+  have hm : ∀ c, (c = c1 ∨ c = c2 ∨ c = c3 ∨ c = c4 ∨ c = c5 ∨ c = c6 ∨ c = c7 ∨ c = c8) →
+      c ≤ max (max (max (max (max (max (max (max m0 c1) c2) c3) c4) c5) c6) c7) c8 := by
+    intro c hc
+    rcases hc with rfl | rfl | rfl | rfl | rfl | rfl | rfl | rfl <;> simp only [le_max_iff, le_refl, true_or, or_true]
+  rw [et]
+  exact cube_hi p a0 a1 a2 s0 s1 s2 _ l0 u0 l1 u1 l2 u2
+    (e1 ▸ hm c1 (by simp)) (e2 ▸ hm c2 (by simp)) (e3 ▸ hm c3 (by simp)) (e4 ▸ hm c4 (by simp))
+    (e5 ▸ hm c5 (by simp)) (e6 ▸ hm c6 (by simp)) (e7 ▸ hm c7 (by simp)) (e8 ▸ hm c8 (by simp))
+
+/-- one coordinate of the ellipsoid extent -/
+theorem ell_coord (a b c x y z : ℝ) (hu : x * x + y * y + z * z ≤ 1) :
+    -Real.sqrt (a * a + b * b + c * c) ≤ a * x + b * y + c * z ∧ a * x + b * y + c * z ≤ Real.sqrt (a * a + b * b + c * c) := by
+  have hq : 0 ≤ a * a + b * b + c * c := by nlinarith [mul_self_nonneg a, mul_self_nonneg b, mul_self_nonneg c]
+  have h := abs_le_mul_sqrt (t := a * x + b * y + c * z) (q := a * a + b * b + c * c) (s := 1) (by norm_num) hq
+    (by nlinarith [cs3 a b c x y z])
+  simpa using h
+
+theorem cyl_coord (bx by' ax r h x y z : ℝ) (hr : 0 ≤ r) (hxy : x * x + y * y ≤ r * r) (lz : -h ≤ z) (uz : z ≤ h) :
+    -(r * Real.sqrt (bx * bx + by' * by') + h * |ax|) ≤ bx * x + by' * y + ax * z ∧
+      bx * x + by' * y + ax * z ≤ r * Real.sqrt (bx * bx + by' * by') + h * |ax| := by
+  have hq : 0 ≤ bx * bx + by' * by' := by nlinarith [mul_self_nonneg bx, mul_self_nonneg by']
+  have h1 := abs_le_mul_sqrt (t := bx * x + by' * y) (q := bx * bx + by' * by') (s := r) hr hq
+    (by nlinarith [cs2 bx by' x y, mul_le_mul_of_nonneg_left hxy hq])
+  have h2 : -(h * |ax|) ≤ ax * z ∧ ax * z ≤ h * |ax| := by
+    rcases abs_cases ax with ⟨e, g⟩ | ⟨e, g⟩ <;> rw [e] <;> constructor <;> nlinarith
+  constructor <;> linarith [h1.1, h1.2, h2.1, h2.2]
+
+theorem lin1S (c a S x m : ℝ) (l : -S ≤ x) (u : x ≤ S) (h0 : m ≤ c - a * S) (h1 : m ≤ c + a * S) : m ≤ c + a * x := by
+  rcases le_total 0 a with g | g
+  · nlinarith [mul_nonneg g (by linarith : (0:ℝ) ≤ x + S)]
+  · nlinarith [mul_nonneg (neg_nonneg.mpr g) (by linarith : (0:ℝ) ≤ S - x)]
+
+theorem nested_min_sq' (m0 p a0 a1 S x y : ℝ) (l0 : -S ≤ x) (u0 : x ≤ S) (l1 : -S ≤ y) (u1 : y ≤ S) :
+    min (min (min (min m0 (p - a0 * S - a1 * S)) (p - a0 * S + a1 * S)) (p + a0 * S - a1 * S)) (p + a0 * S + a1 * S) - 1 / 100
+      ≤ p + a0 * x + a1 * y := by
+  generalize hM : min (min (min (min m0 (p - a0 * S - a1 * S)) (p - a0 * S + a1 * S)) (p + a0 * S - a1 * S)) (p + a0 * S + a1 * S) = M
+  have h1 : M ≤ p - a0 * S - a1 * S := by rw [← hM]; simp only [min_le_iff, le_refl, true_or, or_true]
+  have h2 : M ≤ p - a0 * S + a1 * S := by rw [← hM]; simp only [min_le_iff, le_refl, true_or, or_true]
+  have h3 : M ≤ p + a0 * S - a1 * S := by rw [← hM]; simp only [min_le_iff, le_refl, true_or, or_true]
+  have h4 : M ≤ p + a0 * S + a1 * S := by rw [← hM]; simp only [min_le_iff, le_refl, true_or, or_true]
+  have f0 : M ≤ (p - a0 * S) + a1 * y := lin1S _ a1 S y _ l1 u1 h1 h2
+  have f1 : M ≤ (p + a0 * S) + a1 * y := lin1S _ a1 S y _ l1 u1 h3 h4
+  have g : M ≤ (p + a1 * y) + a0 * x := lin1S _ a0 S x _ l0 u0 (by linarith) (by linarith)
+  linarith
+
+theorem nested_max_sq' (m0 p a0 a1 S x y : ℝ) (l0 : -S ≤ x) (u0 : x ≤ S) (l1 : -S ≤ y) (u1 : y ≤ S) :
+    p + a0 * x + a1 * y ≤
+      max (max (max (max m0 (p - a0 * S - a1 * S)) (p - a0 * S + a1 * S)) (p + a0 * S - a1 * S)) (p + a0 * S + a1 * S) + 1 / 100 := by
+  generalize hM : max (max (max (max m0 (p - a0 * S - a1 * S)) (p - a0 * S + a1 * S)) (p + a0 * S - a1 * S)) (p + a0 * S + a1 * S) = M
+  have h1 : p - a0 * S - a1 * S ≤ M := by rw [← hM]; simp only [le_max_iff, le_refl, true_or, or_true]
+  have h2 : p - a0 * S + a1 * S ≤ M := by rw [← hM]; simp only [le_max_iff, le_refl, true_or, or_true]
+  have h3 : p + a0 * S - a1 * S ≤ M := by rw [← hM]; simp only [le_max_iff, le_refl, true_or, or_true]
+  have h4 : p + a0 * S + a1 * S ≤ M := by rw [← hM]; simp only [le_max_iff, le_refl, true_or, or_true]
+  have f0 := lin1S (-(p + a0 * S)) a1 S (-y) (-M) (by linarith) (by linarith) (by linarith) (by linarith)
+  have f1 := lin1S (-(p - a0 * S)) a1 S (-y) (-M) (by linarith) (by linarith) (by linarith) (by linarith)
+  have g := lin1S (-(p + a1 * y)) a0 S (-x) (-M) (by linarith) (by linarith) (by linarith) (by linarith)
+  linarith
+
+theorem nested_min_sq (m0 p a0 a1 S x y c1 c2 c3 c4 t : ℝ)
+    (l0 : -S ≤ x) (u0 : x ≤ S) (l1 : -S ≤ y) (u1 : y ≤ S)
+    (e1 : c1 = p - a0 * S - a1 * S) (e2 : c2 = p - a0 * S + a1 * S) (e3 : c3 = p + a0 * S - a1 * S)
+    (e4 : c4 = p + a0 * S + a1 * S) (et : t = p + a0 * x + a1 * y) :
+    min (min (min (min m0 c1) c2) c3) c4 - 1 / 100 ≤ t := by
+  subst e1 e2 e3 e4 et
+  exact nested_min_sq' m0 p a0 a1 S x y l0 u0 l1 u1
+
+theorem nested_max_sq (m0 p a0 a1 S x y c1 c2 c3 c4 t : ℝ)
+    (l0 : -S ≤ x) (u0 : x ≤ S) (l1 : -S ≤ y) (u1 : y ≤ S)
+    (e1 : c1 = p - a0 * S - a1 * S) (e2 : c2 = p - a0 * S + a1 * S) (e3 : c3 = p + a0 * S - a1 * S)
+    (e4 : c4 = p + a0 * S + a1 * S) (et : t = p + a0 * x + a1 * y) :
+    t ≤ max (max (max (max m0 c1) c2) c3) c4 + 1 / 100 := by
+  subst e1 e2 e3 e4 et
+  exact nested_max_sq' m0 p a0 a1 S x y l0 u0 l1 u1
+
+/-! ### mesh half extent of `bvh.build_mesh_bvh` (model `RayCast.meshHalf`) -/
+
+theorem foldl_vmin_le (vs : List (V3 ℝ)) : ∀ a : V3 ℝ,
+    ((vs.foldl V3.vmin a).c0 ≤ a.c0 ∧ (vs.foldl V3.vmin a).c1 ≤ a.c1 ∧ (vs.foldl V3.vmin a).c2 ≤ a.c2) ∧
+    ∀ v ∈ vs, (vs.foldl V3.vmin a).c0 ≤ v.c0 ∧ (vs.foldl V3.vmin a).c1 ≤ v.c1 ∧ (vs.foldl V3.vmin a).c2 ≤ v.c2 := by
+  induction vs with
+  | nil => intro a; exact ⟨⟨le_refl _, le_refl _, le_refl _⟩, fun v hv => absurd hv List.not_mem_nil⟩
+  | cons w vs ih =>
+    intro a
+    obtain ⟨⟨h0, h1, h2⟩, hall⟩ := ih (V3.vmin a w)
+    simp only [V3.vmin, smin] at h0 h1 h2
+    simp only [List.foldl_cons]
+    refine ⟨⟨h0.trans (min_le_left _ _), h1.trans (min_le_left _ _), h2.trans (min_le_left _ _)⟩, ?_⟩
+    intro v hv
+    rcases List.mem_cons.mp hv with rfl | hv
+    · exact ⟨h0.trans (min_le_right _ _), h1.trans (min_le_right _ _), h2.trans (min_le_right _ _)⟩
+    · exact hall v hv
+
+theorem le_foldl_vmax (vs : List (V3 ℝ)) : ∀ a : V3 ℝ,
+    (a.c0 ≤ (vs.foldl V3.vmax a).c0 ∧ a.c1 ≤ (vs.foldl V3.vmax a).c1 ∧ a.c2 ≤ (vs.foldl V3.vmax a).c2) ∧
+    ∀ v ∈ vs, v.c0 ≤ (vs.foldl V3.vmax a).c0 ∧ v.c1 ≤ (vs.foldl V3.vmax a).c1 ∧ v.c2 ≤ (vs.foldl V3.vmax a).c2 := by
+  induction vs with
+  | nil => intro a; exact ⟨⟨le_refl _, le_refl _, le_refl _⟩, fun v hv => absurd hv List.not_mem_nil⟩
+  | cons w vs ih =>
+    intro a
+    obtain ⟨⟨h0, h1, h2⟩, hall⟩ := ih (V3.vmax a w)
+    simp only [V3.vmax, smax] at h0 h1 h2
+    simp only [List.foldl_cons]
+    refine ⟨⟨(le_max_left _ _).trans h0, (le_max_left _ _).trans h1, (le_max_left _ _).trans h2⟩, ?_⟩
+    intro v hv
+    rcases List.mem_cons.mp hv with rfl | hv
+    · exact ⟨(le_max_right _ _).trans h0, (le_max_right _ _).trans h1, (le_max_right _ _).trans h2⟩
+    · exact hall v hv
+
+theorem abs_le_max_abs {lo hi x : ℝ} (h0 : lo ≤ x) (h1 : x ≤ hi) : |x| ≤ max |lo| |hi| := by
+  rw [abs_le]
+  constructor
+  · have := neg_abs_le lo
+    have := le_max_left |lo| |hi|
+    linarith
+  · have := le_abs_self hi
+    have := le_max_right |lo| |hi|
+    linarith
+
+/-- every vertex of the mesh lies within `± meshHalf` of the mesh-frame origin, per axis -/
+theorem meshHalf_bound (v0 : V3 ℝ) (vs : List (V3 ℝ)) (v : V3 ℝ) (hv : v ∈ v0 :: vs) :
+    |v.c0| ≤ (meshHalf v0 vs).c0 ∧ |v.c1| ≤ (meshHalf v0 vs).c1 ∧ |v.c2| ≤ (meshHalf v0 vs).c2 := by
+  obtain ⟨⟨a0, a1, a2⟩, amin⟩ := foldl_vmin_le vs v0
+  obtain ⟨⟨b0, b1, b2⟩, bmax⟩ := le_foldl_vmax vs v0
+  simp only [meshHalf, meshMin, meshMax, V3.vmax, V3.vabs, smax, sabs]
+  rcases List.mem_cons.mp hv with rfl | hv
+  · exact ⟨abs_le_max_abs a0 b0, abs_le_max_abs a1 b1, abs_le_max_abs a2 b2⟩
+  · obtain ⟨m0, m1, m2⟩ := amin v hv
+    obtain ⟨n0, n1, n2⟩ := bmax v hv
+    exact ⟨abs_le_max_abs m0 n0, abs_le_max_abs m1 n1, abs_le_max_abs m2 n2⟩
+
+/-- `|q| ≤ h` ⇒ `q = h·s` with `s ∈ [-1,1]` (also for `h = 0`) -/
+theorem scaled_of_abs_le {q h : ℝ} (hq : |q| ≤ h) : ∃ s : ℝ, -1 ≤ s ∧ s ≤ 1 ∧ q = h * s := by
+  have hh : 0 ≤ h := (abs_nonneg q).trans hq
+  rcases hh.eq_or_lt with e | hpos
+  · refine ⟨0, by norm_num, by norm_num, ?_⟩
+    rw [← e] at hq ⊢
+    simpa using abs_nonpos_iff.mp hq
+  · obtain ⟨l, u⟩ := abs_le.mp hq
+    refine ⟨q / h, ?_, ?_, ?_⟩
+    · rw [le_div_iff₀ hpos]; linarith
+    · rw [div_le_iff₀ hpos]; linarith
+    · field_simp
+
+/-- a convex combination of three numbers within `±h` stays within `±h` (points of a triangle) -/
+theorem abs_convex3_le {x0 x1 x2 a b c h : ℝ} (ha : 0 ≤ a) (hb : 0 ≤ b) (hc : 0 ≤ c) (hs : a + b + c = 1)
+    (h0 : |x0| ≤ h) (h1 : |x1| ≤ h) (h2 : |x2| ≤ h) : |a * x0 + b * x1 + c * x2| ≤ h := by
+  obtain ⟨l0, u0⟩ := abs_le.mp h0
+  obtain ⟨l1, u1⟩ := abs_le.mp h1
+  obtain ⟨l2, u2⟩ := abs_le.mp h2
+  rw [abs_le]
+  constructor <;> nlinarith [mul_nonneg ha (sub_nonneg.mpr u0), mul_nonneg hb (sub_nonneg.mpr u1), mul_nonneg hc (sub_nonneg.mpr u2),
+    mul_nonneg ha (by linarith : (0:ℝ) ≤ x0 + h), mul_nonneg hb (by linarith : (0:ℝ) ≤ x1 + h), mul_nonneg hc (by linarith : (0:ℝ) ≤ x2 + h)]
 
 end Mjw.Lemmas.C35
